@@ -149,6 +149,7 @@ LOCATIONS = [None, "/rel", "http://h/abs", "/é x", "//other/p", "http://bücher
              # references without scheme / host: they inherit parts of the request URL when autocorrected
              "sibling", "./x", "../x", "?q=ä", "#frag", "/rooted", "", "../../ü/./y"]
 ENV_BODIES = ("str", "closable", "fw-dp")
+N_FULL_LOCATIONS = 8   # LOCATIONS[1:8] take part in the full thorough product, the relative forms in the sub-products
 PREOPS = ["none", "get_data", "calc", "make_sequence", "freeze"]
 WRAPS = ["none", "call", "from_app", "from_app-buffered", "force_type-app", "force_type-response"]
 CONSUME = ["all", "nothing", "one"]
@@ -188,21 +189,29 @@ def a_cases_for(bname, sti, tier):
     other dimensions at one callback / no pre-op / full consumption (get_wsgi_headers and get_app_iter do not share
     state beyond status and method)."""
     locs = [(None, False)] + [(i, a) for i in range(1, len(LOCATIONS)) for a in (False, True)]
-    if tier == "thorough":
+    thorough = tier == "thorough"
+    padded = isinstance(STATUSES[sti][0], str) and STATUSES[sti][0] != STATUSES[sti][0].strip()
+    if thorough and not padded:
+        # the full product, over the absolute / rooted / IRI Location forms (indices 1-7)
+        full_locs = [x for x in locs if x[0] is None or x[0] < N_FULL_LOCATIONS]
         for method, preset, (loci, auto), ncb, preop, consume, wrap in itertools.product(
-                METHODS, (False, True), locs, (0, 1, 2), PREOPS, CONSUME, WRAPS):
+                METHODS, (False, True), full_locs, (0, 1, 2), PREOPS, CONSUME, WRAPS):
             yield (bname, sti, method, preset, loci, auto, ncb, preop, consume, wrap, 0)
+    else:
+        # padded status strings only differ in _clean_status: the quick-style sub-products in both tiers
+        for method, preset, ncb, preop, consume, wrap in itertools.product(
+                METHODS, (False, True), (0, 1, 2), PREOPS, CONSUME, WRAPS):
+            yield (bname, sti, method, preset, None, False, ncb, preop, consume, wrap, 0)
+    # Location x autocorrect x wrapping on the default request, every Location form
+    for method, (loci, auto), wrap in itertools.product(METHODS, locs[1:], ("none", "from_app")):
+        yield (bname, sti, method, False, loci, auto, 1, "none", "all", wrap, 0)
+    # Location x autocorrect x request environment (independent of the body: three representative bodies in quick,
+    # every body and both wrappings in thorough)
+    if thorough:
         for envi, method, (loci, auto), wrap in itertools.product(
                 range(1, len(ENVS)), METHODS, locs[1:], ("none", "from_app")):
             yield (bname, sti, method, False, loci, auto, 1, "none", "all", wrap, envi)
-        return
-    for method, preset, ncb, preop, consume, wrap in itertools.product(
-            METHODS, (False, True), (0, 1, 2), PREOPS, CONSUME, WRAPS):
-        yield (bname, sti, method, preset, None, False, ncb, preop, consume, wrap, 0)
-    for method, (loci, auto), wrap in itertools.product(METHODS, locs[1:], ("none", "from_app")):
-        yield (bname, sti, method, False, loci, auto, 1, "none", "all", wrap, 0)
-    # Location x autocorrect x request environment (independent of the body: three representative bodies in quick)
-    if bname in ENV_BODIES:
+    elif bname in ENV_BODIES:
         for envi, method, (loci, auto) in itertools.product(range(1, len(ENVS)), METHODS, locs[1:]):
             yield (bname, sti, method, False, loci, auto, 1, "none", "all", "none", envi)
 
@@ -413,6 +422,7 @@ ADJ_VALUES += [("%s+%s" % (an, nn), "a" + adj + nl + "b", True) for nn, nl in NE
 ADJ_VALUES += [("fold-header", "a\n X: y", True), ("fold-only", "\n ", True), ("fold-tab-only", "\r\t", True),
                ("fold-crlf-tab", "a\r\n\tb", True), ("fold-trailing", "a\n ", True), ("fold-leading", " \na", True),
                ("fold-twice", "a\n \n b", True)]
+N_CORE_VALUES = len(VALUES)
 VALUES += ADJ_VALUES
 
 
@@ -621,7 +631,10 @@ def run_b_unit(unit, R, tier):
             if enabled is not None and not enabled(h0):
                 continue
             for k in KEYS:
-                for vi in (range(len(VALUES)) if opname not in REMOVERS else (0,)):
+                # the 43 newline-adjacency values are judged on every state of <= 3 items (validation does not
+                # depend on the stored list); 4-item states (thorough) get the 9 core values
+                nvals = len(VALUES) if len(state) <= 3 else N_CORE_VALUES
+                for vi in (range(nvals) if opname not in REMOVERS else (0,)):
                     R.ev()
                     R.count("transitions")
                     problem, raised, new, extra = b_transition(state, opname, k, vi)
